@@ -559,6 +559,15 @@ theorem km_converged_l1_is_not_rdist_lt_sq_tol :
           (kmStepBy .l1 (2 : Rat) ⟨[[0]], [0]⟩ [[3]]).1.centroids.flatten < 2 * 2) := by
   decide +kernel
 
+/-- **inertia is the minimum over all assignments**: the sum `dists.sum()` behind `inertia` is at most
+the total reduced distance of ANY assignment of the batch's rows to centroids of the model -/
+theorem km_inertia_le_any_assignment (m : Metric) (cs : List (List α)) (obs : List (List α))
+    (a : List α → List α) (ha : ∀ x ∈ obs, a x ∈ cs) :
+    sumS (obs.map fun x => (closestBy m cs x).2) ≤ sumS (obs.map fun x => rdistBy m (a x) x) :=
+  kmInertia_le m cs obs a ha
+
+example : kmInertiaBy .l1 [[0], [10]] ([[1], [9], [4]] : List (List Rat)) = 2 := by decide +kernel
+
 /-- **the cumulative counts add up**: after any history the per-cluster counts sum to what they
 summed to before plus the number of rows fed (every row is counted in exactly one cluster, nothing is
 ever reset); guards = at least one centroid, one count per centroid (`Array1::zeros(n_clusters)`) -/
@@ -701,6 +710,22 @@ example : (ftrlCoordRun (⟨1, 1, 1 / 2, 1⟩ : FtrlHp Rat) (1 / 4, 0) [1, -2, 2
 example : ((([[1, 0], [-2, 1]] : List (List Rat)).foldl (ftrlUpdate ⟨1, 1, 1 / 2, 1⟩) ⟨[1 / 4, 2], [0, 1]⟩).n) = [5, 2] := by
   decide +kernel
 
+/-- **the weight is the FTRL-proximal minimiser**: for `l1 ≥ 0` and a positive quadratic coefficient
+`d = (√n + β)/α + l2`, `get_weights` returns, per coordinate, a minimiser over ALL `w` of the
+documented objective `z·w + l1·|w| + ½·d·w²` (soft threshold at `l1`, hence the exact zeros) -/
+theorem ftrl_weight_is_proximal_minimiser [Transc α] (hp : FtrlHp α) (z n : α) (hl1 : 0 ≤ hp.l1)
+    (hd : 0 < (Transc.sqrt n + hp.beta) / hp.alpha + hp.l2) (w : α) :
+    ftrlObjective hp z n (ftrlWeight hp z n) ≤ ftrlObjective hp z n w :=
+  ftrlWeight_minimises hp z n hl1 hd w
+
+/-- hyper-parameters α = β = 1, l1 = 1/2, l2 = 1, `n = 4` (`sqrt` the stand-in identity): `d = 6 > 0`;
+the weight of `z = 3/2` is `-1/6` with objective `-1/12`, below the objective at `0` and at `-1/3` -/
+example : (0 : Rat) ≤ (⟨1, 1, 1 / 2, 1⟩ : FtrlHp Rat).l1 ∧
+    (0 : Rat) < (Transc.sqrt 4 + (⟨1, 1, 1 / 2, 1⟩ : FtrlHp Rat).beta) / (⟨1, 1, 1 / 2, 1⟩ : FtrlHp Rat).alpha + (⟨1, 1, 1 / 2, 1⟩ : FtrlHp Rat).l2 ∧
+    ftrlObjective (⟨1, 1, 1 / 2, 1⟩ : FtrlHp Rat) (3 / 2) 4 (ftrlWeight ⟨1, 1, 1 / 2, 1⟩ (3 / 2) 4) = -1 / 12 ∧
+    ftrlObjective (⟨1, 1, 1 / 2, 1⟩ : FtrlHp Rat) (3 / 2) 4 0 = 0 ∧
+    ftrlObjective (⟨1, 1, 1 / 2, 1⟩ : FtrlHp Rat) (3 / 2) 4 (-1 / 3) = 0 := by decide +kernel
+
 /-- **the sigmoid is clamped**: beyond `±max_abs` the predicted probability no longer depends on the logit -/
 theorem ftrl_sigmoid_clamped [Transc α] (m v : α) (hm : 0 ≤ m) :
     (m ≤ v → sigmoid m v = sigmoid m m) ∧ (v ≤ -m → sigmoid m v = sigmoid m (-m)) :=
@@ -775,5 +800,25 @@ example : ((ftrlFitHistory (35 : Rat) id ⟨1, 1, 1 / 2, 1⟩ [1 / 4, 3 / 4] non
     [([[1, 0]], [true]), ([[0, 1], [1, 1]], [false, true])]).map (·.n.length)) = [2, 2] := by decide +kernel
 
 end Field
+
+/-! ## over the reals: the multinomial log-frequencies are logarithms of the textbook frequencies -/
+
+section Reals
+attribute [local instance] LinfaSpec.Incremental.transcReal
+
+/-- **additively smoothed feature frequencies**: with the real `ln`, the exponential of the stored
+log-frequency of feature `j` is `(N_j + α) / Σ_k (N_k + α)` whenever the smoothed counts are positive
+(`α > 0`, or `α = 0` and every feature seen) — the textbook estimate -/
+theorem mnb_log_prob_is_log_of_smoothed_frequency (a : ℝ) (fc : List ℝ)
+    (hpos : ∀ x ∈ fc, 0 < x + a) (j : Nat) (x : ℝ) (hj : fc[j]? = some x) :
+    ((mnbLogProb a fc).map Real.exp)[j]? =
+      some ((x + a) / sumS (fc.map (· + a))) :=
+  mnbLogProb_exp a fc hpos j x hj
+
+example : (∀ x ∈ ([4, 2, 0] : List ℝ), 0 < x + 1) ∧ ([4, 2, 0] : List ℝ)[1]? = some 2 := by
+  constructor
+  · intro x hx; simp at hx; rcases hx with rfl | rfl | rfl <;> norm_num
+  · rfl
+end Reals
 
 end LinfaSpec.Props.C15
